@@ -515,7 +515,7 @@ func c20FirstSep(agg *c19Agg, p *sxPath, F *ssa.Function, fname string, R, ref s
 
 func c20R3(c *Ctx) {
 	const R3 = "C20.R3.parse-validates"
-	c.Expect(R3, 14)
+	c.Expect(R3, 16)
 	agg := newC19Agg(c, R3)
 	refT := c.P.Named("registry", "Reference")
 	PR := c.P.Fn("registry", "ParseReference")
@@ -644,6 +644,52 @@ func c20R3(c *Ctx) {
 	}
 	if nOK == 0 {
 		c.LostAnchor(R3, rn+": successful return")
+	}
+	// the string examined is the caller's, unmodified: registry.ParseReference gets the raw
+	// parameter, and a fallback reference is the parameter or what follows a separator found
+	// in the parameter itself (a prefix stripped beforehand would lose which separator — ':'
+	// ⇒ tag, '@' ⇒ digest — introduced the reference)
+	if rawIdx := c19ParamIndexByType(RP, isStringType); rawIdx >= 0 {
+		raw := sxParam{RP.Params[rawIdx]}
+		key := rn + "|whole-input-examined"
+		for _, p := range res.Paths {
+			if p.Ret == nil {
+				continue
+			}
+			bad := ""
+			for _, r := range p.Calls {
+				if r.Callee == PR && !sxSame(r.Args[0], raw) {
+					bad = "registry.ParseReference is given " + sxDescribe(r.Args[0]) + " instead of the caller's string"
+				}
+			}
+			if sxSame(p.Ret[1], sxNil) {
+				sxWalk(fld(p.Ret[0], "Reference"), func(x sxVal) bool {
+					switch u := x.(type) {
+					case sxParam:
+						if !sxSame(u, raw) {
+							bad = "the reference is taken from " + sxDescribe(u)
+						}
+					case sxCall:
+						if u.rec.Callee == PR {
+							return false // the parsed result
+						}
+						if strings.HasPrefix(u.rec.Name, "strings.") && len(u.rec.Args) > 0 && !sxSame(u.rec.Args[0], raw) {
+							bad = u.rec.Name + " searches " + sxDescribe(u.rec.Args[0]) + ", not the caller's string"
+						}
+					case sxOp:
+						if u.op == "slice" && !sxSame(u.args[0], raw) {
+							bad = "the reference is cut out of " + sxDescribe(u.args[0]) + ", not of the caller's string"
+						}
+					}
+					return true
+				})
+			}
+			if bad == "" {
+				agg.ok(key, RP, p.RetInstr, "registry.ParseReference and the fallback both examine the caller's string itself")
+			} else {
+				agg.fail(key, RP, p.RetInstr, p, bad+": part of the input (and the separator that decides tag vs digest) is dropped before validation")
+			}
+		}
 	}
 	agg.flush()
 
@@ -807,6 +853,29 @@ func c20R3(c *Ctx) {
 		}
 	}
 	agg.flush()
+	// (e) String() is written in the template algebra: the raw fields, the digest's
+	// own text and the literal separators only — any other function applied to a
+	// field (path.Join, Clean, Trim…, ToLower) changes what parses back
+	if S := c.P.Fn("registry", "Reference.String"); S != nil {
+		n := stTemplateOf(S, 0)
+		key := FnName(S) + "|template-algebra"
+		bad := ""
+		if unk := stUnknowns(n); len(unk) > 0 {
+			c.Undecided(R3, key, S.Pos(), "cannot evaluate the string built by String(): "+strings.Join(unk, "; "))
+		} else {
+			for _, h := range stHoles(n) {
+				switch {
+				case h == "registry.Reference.Registry", h == "registry.Reference.Repository", h == "registry.Reference.Reference":
+				case strings.HasPrefix(h, "registry.Reference.Digest()#0") || strings.HasPrefix(h, "digest.Parse(registry.Reference.Reference)#0") ||
+					strings.HasPrefix(h, "string(registry.Reference.Digest()#0") || strings.HasPrefix(h, "string(digest.Parse(registry.Reference.Reference)#0"):
+				default:
+					bad = h
+				}
+			}
+			c.Check(R3, key, S.Pos(), bad == "", ifelse(bad == "", "String() = "+n.render()+": only the fields, the parsed digest's text and literal separators",
+				"String() puts {"+bad+"} into the text: a function of a field other than concatenation (cleaning, trimming, case folding …) means accepted references no longer format to a string that parses back to the same parts"))
+		}
+	}
 }
 
 // ---------- R4 ----------
@@ -866,31 +935,48 @@ func c20R4(c *Ctx) {
 	}
 	produced := map[string][]string{}
 	classOf := map[*ssa.Function]string{}
-	for _, f := range builders {
-		fn := FnName(f)
-		n := stTemplateOf(f, 0)
-		if unk := stUnknowns(n); len(unk) > 0 {
-			c.Undecided(R4, fn+"|template", f.Pos(), "cannot evaluate the string built here: "+strings.Join(unk, "; ")+"  (partial: "+n.render()+")")
-			continue
-		}
-		got := n.render()
-		matched := ""
+	classAt := map[ssa.CallInstruction][]string{} // endpoints a parameterised builder is instantiated to at a call site
+	match := func(got string) string {
 		for _, e := range c20Endpoints {
 			for _, t := range e.tmpl {
 				if t == got {
-					matched = e.name
+					return e.name
 				}
 			}
 		}
+		return ""
+	}
+	for _, f := range builders {
+		fn := FnName(f)
+		n := stTemplateOf(f, 0)
+		unk := stUnknowns(n)
+		got := n.render()
+		matched := ""
+		if len(unk) == 0 {
+			matched = match(got)
+		}
 		if matched == "" {
-			// a parameterised helper (e.g. base + "/" + kind + "/" + reference) is judged
+			// a parameterised helper (base + "/" + kind + "/" + reference, a variadic join …) is judged
 			// through the builders that instantiate it, provided nothing else can reach it
 			if users, internal := c20OnlyUsedBy(c, f, builders); internal && len(users) > 0 {
 				classOf[f] = "helper"
 				c.Exists(R4, fn+"|template", f.Pos(), true, got+"  =  helper, only instantiated by "+strings.Join(users, ", ")+" (evaluated there)")
 				continue
 			}
-			c.Violation(R4, fn+"|template", f.Pos(), "builds "+got+" which is none of the distribution-spec endpoint templates (a reference part outside its slot, an extra segment or query, or a wrong scheme/host)")
+			// … or through its call sites, when each passes constants for the free string parameters
+			if ok, why := c20Instantiate(c, f, builders, match, classAt, produced); ok {
+				classOf[f] = "parameterised"
+				c.OK(R4, fn+"|template", f.Pos(), got+"  =  parameterised builder; every call site instantiates it to an endpoint: "+why)
+				continue
+			} else if len(unk) == 0 || why != "" {
+				if len(unk) > 0 {
+					c.Undecided(R4, fn+"|template", f.Pos(), "cannot evaluate the string built here: "+strings.Join(unk, "; ")+"  (partial: "+got+")")
+				} else {
+					c.Violation(R4, fn+"|template", f.Pos(), "builds "+got+" which is none of the distribution-spec endpoint templates (a reference part outside its slot, an extra segment or query, or a wrong scheme/host)"+ifelse(why != "", "; "+why, ""))
+				}
+				continue
+			}
+			c.Undecided(R4, fn+"|template", f.Pos(), "cannot evaluate the string built here: "+strings.Join(unk, "; ")+"  (partial: "+got+")")
 			continue
 		}
 		classOf[f] = matched
@@ -943,8 +1029,14 @@ func c20R4(c *Ctx) {
 			} else if f.Parent() != nil && f.Parent().Signature.Recv() != nil {
 				recvT = f.Parent().Signature.Recv().Type()
 			}
-			kind := classOf[g]
-			if recvT != nil {
+			kinds := []string{classOf[g]}
+			if at, ok := classAt[call]; ok {
+				kinds = at
+			}
+			for _, kind := range kinds {
+				if recvT == nil {
+					continue
+				}
 				if types.Identical(recvT, blobT) && !strings.Contains(kind, "/blobs/") {
 					okStore, whyStore = false, FnName(f)+" (blob store) builds its URL with "+FnName(g)+" = "+kind
 				}
@@ -960,6 +1052,83 @@ func c20R4(c *Ctx) {
 	}
 	c.Check(R4, "callers|scheme-by-PlainHTTP", 0, okPlain, ifelse(okPlain, fmt.Sprintf("all %d builder calls pass the PlainHTTP option as the scheme flag", nCalls), whyPlain))
 	c.Check(R4, "callers|store-uses-own-endpoint", 0, okStore, ifelse(okStore, "methods of the blob store use only /blobs/ endpoints, methods of the manifest store only /manifests/ endpoints", whyStore))
+}
+
+// c20Instantiate judges a parameterised builder through its call sites: every
+// use is a static call; calls from other builders are evaluated there; every
+// other call passes, for each string parameter that the template leaves open,
+// values that are all constants — each instantiation must be an endpoint.
+func c20Instantiate(c *Ctx, f *ssa.Function, builders []*ssa.Function, match func(string) string,
+	classAt map[ssa.CallInstruction][]string, produced map[string][]string) (bool, string) {
+	isBuilder := map[*ssa.Function]bool{}
+	for _, b := range builders {
+		isBuilder[b] = true
+	}
+	var strParams []int
+	for i, p := range f.Params {
+		if isStringType(p.Type()) {
+			strParams = append(strParams, i)
+		}
+	}
+	if len(strParams) != 1 {
+		return false, "" // only single-parameter instantiation is attempted
+	}
+	pi := strParams[0]
+	seen := map[string]bool{}
+	var names []string
+	sites := 0
+	for _, g := range c.P.FuncsOfPkg(fnPkgPath(f)) {
+		var bad string
+		AllInstrs(g, func(instr ssa.Instruction) {
+			for _, op := range instr.Operands(nil) {
+				if op == nil || *op != ssa.Value(f) {
+					continue
+				}
+				call, isCall := instr.(ssa.CallInstruction)
+				if !isCall || call.Common().Value != ssa.Value(f) {
+					bad = "it is used as a value in " + FnName(g)
+					continue
+				}
+				if isBuilder[g] {
+					continue
+				}
+				sites++
+				var kinds []string
+				for _, r := range Roots(call.Common().Args[pi]) {
+					k, ok := constString(r)
+					if !ok {
+						bad = FnName(g) + " passes a non-constant " + f.Params[pi].Name()
+						continue
+					}
+					n := stTemplateWith(f, 0, map[*ssa.Parameter]stNode{f.Params[pi]: stLit(k)})
+					if unk := stUnknowns(n); len(unk) > 0 {
+						bad = "instantiation with " + k + " cannot be evaluated: " + strings.Join(unk, "; ")
+						continue
+					}
+					m := match(n.render())
+					if m == "" {
+						bad = FnName(g) + " instantiates it to " + n.render() + ", which is no endpoint"
+						continue
+					}
+					kinds = append(kinds, m)
+					if !seen[m] {
+						seen[m] = true
+						names = append(names, m)
+						produced[m] = append(produced[m], FnName(f))
+					}
+				}
+				classAt[call] = kinds
+			}
+		})
+		if bad != "" {
+			return false, bad
+		}
+	}
+	if sites == 0 {
+		return false, ""
+	}
+	sort.Strings(names)
+	return true, strings.Join(names, "; ")
 }
 
 // c20OnlyUsedBy: every use of f in its package is a static call from one of
@@ -1495,5 +1664,10 @@ var c20Mutants = []Mutant{
 	{Name: "blob-resolve-parses-only-the-digest-suffix", File: "registry/remote/repository.go",
 		Old: "\tref, err := s.repo.ParseReference(reference)\n\tif err != nil {\n\t\treturn ocispec.Descriptor{}, err\n\t}\n\trefDigest, err := ref.Digest()\n\tif err != nil {\n\t\treturn ocispec.Descriptor{}, err\n\t}\n",
 		New: "\trefDigest, err := digest.Parse(reference[strings.LastIndexByte(reference, '@')+1:])\n\tif err != nil {\n\t\treturn ocispec.Descriptor{}, err\n\t}\n\tref := s.repo.Reference\n\tref.Reference = refDigest.String()\n", Expect: "C20.R5"},
+	{Name: "fast-path-strips-base-and-separator", File: "registry/remote/repository.go",
+		Old: "\tref, err := registry.ParseReference(reference)\n\tif err != nil {\n\t\tref = registry.Reference{",
+		New: "\tif rest, ok := strings.CutPrefix(reference, r.Reference.Registry+\"/\"+r.Reference.Repository); ok && len(rest) > 1 {\n\t\tif rest[0] == ':' || rest[0] == '@' {\n\t\t\treference = rest[1:]\n\t\t}\n\t}\n\tref, err := registry.ParseReference(reference)\n\tif err != nil {\n\t\tref = registry.Reference{", Expect: "C20.R3"},
+	{Name: "string-trims-the-registry", File: "registry/reference.go",
+		Old: "\tref := r.Registry + \"/\" + r.Repository\n", New: "\tref := strings.TrimSuffix(r.Registry, \"/\") + \"/\" + r.Repository\n", Expect: "C20.R3"},
 	{Name: "reference-placed-in-query", File: "registry/remote/url.go", Old: "\t\t\"%s/referrers/%s%s\",", New: "\t\t\"%s/referrers/?digest=%s%s\",", Expect: "C20.R4"},
 }
